@@ -87,6 +87,10 @@ pub struct TlsClientPeer {
     ssl_request: Vec<u8>,
     greeting_seen: bool,
     closed: bool,
+    /// minor version to put into the record headers of the first flight (the ClientHello): the
+    /// field is not part of the handshake transcript, clients differ in it (3.1 is what rustls
+    /// and OpenSSL write, JSSE writes 3.3) and a server has to accept any 3.x there
+    pub hello_record_minor: Option<u8>,
 }
 
 impl TlsClientPeer {
@@ -94,7 +98,7 @@ impl TlsClientPeer {
         let mut client = ClientConnection::new(cfg, ServerName::try_from("localhost").unwrap()).expect("client connection");
         client.set_buffer_limit(None);
         let log = Rc::new(RefCell::new(PeerLog::default()));
-        (TlsClientPeer { log: log.clone(), client, upgraded: false, messages, kinds, lockstep, sent: 0, ssl_request, greeting_seen: false, closed: false }, log)
+        (TlsClientPeer { log: log.clone(), client, upgraded: false, messages, kinds, lockstep, sent: 0, ssl_request, greeting_seen: false, closed: false, hello_record_minor: None }, log)
     }
 
     fn pump_app_data(&mut self) {
@@ -140,6 +144,13 @@ impl Peer for TlsClientPeer {
             while self.client.wants_write() {
                 if self.client.write_tls(&mut out).is_err() {
                     break;
+                }
+            }
+            if let Some(minor) = self.hello_record_minor {
+                let mut p = before;
+                while p + 5 <= out.len() && out[p] == 0x16 && out[p + 1] == 3 {
+                    out[p + 2] = minor;
+                    p += 5 + u16::from_be_bytes([out[p + 3], out[p + 4]]) as usize;
                 }
             }
             self.log.borrow_mut().client_hello_len = out.len() - before;
